@@ -28,6 +28,8 @@ import (
 	"verif/engine/ev"
 )
 
+var bigAlloc = make(chan struct{}, 2)
+
 var nets = []uint32{0xd9b4bef9, 0x0709110b, 0xdab5bffa}
 var maxReads = []int{0, 1, 7, 64}
 
@@ -62,7 +64,7 @@ func main() {
 	if pp := os.Getenv("VERIF_PPROF"); pp != "" {
 		f, _ := os.Create(pp)
 		pprof.StartCPUProfile(f)
-		go func() { time.Sleep(60 * time.Second); pprof.StopCPUProfile(); f.Close() }()
+		defer func() { pprof.StopCPUProfile(); f.Close() }()
 	}
 	installDetRand()
 	workers := runtime.NumCPU()
@@ -70,10 +72,10 @@ func main() {
 		"(role, both garbage lengths, both decoy lists, packet schedule, read chunking, peer key/v1-prefix overlap), " +
 		"or one modification of the reference->impl byte stream of such a session, or one ElligatorSwift input; " +
 		"distinct = distinct parameter tuple; every session performs a real ECDH, key schedule and at least one AEAD packet per direction")
-	r.Assume("crypto/sha256, crypto/hmac, x/crypto chacha20 (raw keystream) and poly1305 (raw MAC) are correct; math/big is correct")
+	r.Assume("crypto/sha256, crypto/hmac and math/big are correct; the reference's own ChaCha20/Poly1305 (written from RFC 8439, self-tested against the RFC vectors and a big-integer definition) are bound end-to-end by the shipped BIP324 packet vectors")
 	r.Assume("crypto/rand.Reader is replaced by a seeded deterministic stream per impl call (keys and garbage contents are fixed, not sampled); the reference reads the impl's key and garbage off the wire")
 	r.Assume("a stream that ends (EOF from the ReadWriter) counts as a reported error")
-	r.SetBudget(time.Duration(r.Pick(150, 840)) * time.Second)
+	r.SetBudget(time.Duration(r.Pick(240, 840)) * time.Second)
 
 	sink := &failSink{}
 	x := func(order int) *ctx {
@@ -166,7 +168,6 @@ func main() {
 				tr := runInterop(cases[i], x(i))
 				r.Eval(1)
 				r.Trace(1)
-				r.State(1)
 				r.Nontrivial(fmt.Sprintf("interop/%+v", cases[i]))
 				atomic.AddInt64(&doneC, 1)
 				if tr.ok && atomic.AddInt64(&sampled, 1) <= 3 {
@@ -201,18 +202,30 @@ func main() {
 		}
 		var jobs []job
 		S := len(tr.toImpl)
+		np := len(tr.packetElems())
 		for _, m := range []int{0x01, 0x80, 0xff} {
 			for off := 0; off < S; off++ {
+				// flipping high bits of the most significant length byte makes the
+				// impl allocate 8-16 MiB; quick does that only for the first 6 and
+				// last 10 packets (thorough: every packet)
+				if pj, msb := tr.lenMSB(off); msb && m != 0x01 && !r.Thorough() && pj >= 6 && pj < np-10 {
+					continue
+				}
 				jobs = append(jobs, job{"xor", off, m})
 			}
 		}
 		for off := 0; off < S; off++ {
 			jobs = append(jobs, job{"trunc", off, 0})
 		}
-		np := len(tr.packetElems())
+		// drop / duplicate / swap: every packet in thorough; in quick the first
+		// 6 packets (decoy, version, first data) and the last 10 (around and
+		// inside the window that straddles the rekey).  Each of these makes the
+		// impl decrypt a bogus 24-bit length and allocate that much.
 		for _, k := range []string{"drop", "dup", "swap"} {
 			for j := 0; j < np; j++ {
-				jobs = append(jobs, job{k, j, 0})
+				if r.Thorough() || j < 6 || j >= np-10 {
+					jobs = append(jobs, job{k, j, 0})
+				}
 			}
 		}
 		for v := 0; v < 12; v++ {
@@ -234,6 +247,13 @@ func main() {
 					cs := base
 					cs.TKind, cs.Off, cs.Mask = j.kind, j.off, j.mask
 					cs.MaxRead = maxReads[i%4]
+					// cases that garble an encrypted length make the impl allocate up
+					// to 16 MiB before reading; concurrent huge allocations thrash,
+					// so those cases run two at a time.
+					if j.kind == "drop" || j.kind == "dup" || j.kind == "swap" || tr.isLenByte(j.off) {
+						bigAlloc <- struct{}{}
+						defer func() { <-bigAlloc }()
+					}
 					if runTamperCase(cs, tr, x(i)) {
 						r.Eval(1)
 						r.Trace(1)
@@ -254,6 +274,9 @@ func main() {
 	r.Add("tamper_runs", int64(nT))
 
 	lap("tamper")
+	if os.Getenv("VERIF_PPROF") != "" {
+		pprof.StopCPUProfile()
+	}
 	if atomic.LoadInt64(&strayReads) != 0 {
 		r.Broken("crypto/rand was read %d times outside a seeded scope: determinism not guaranteed", strayReads)
 	}
@@ -268,7 +291,7 @@ func main() {
 		"read_chunking":              maxReads,
 		"peer_key_v1_prefix_overlap": "0..15 bytes (impl responds)",
 		"tamper_session":             "peer garbage 3, 1 decoy, version, 219 data packets, then 6 packets with counters 221..226 (rekey after 223)",
-		"tamper_ops":                 "xor{01,80,ff} at every offset; truncate at every offset; drop/dup/swap every packet; 5 wrong-AAD, 5 wrong-terminator, garbage 4096/4097; thorough adds delete/insert a byte at every offset",
+		"tamper_ops":                 "xor{01,80,ff} at every offset (quick: masks 80/ff on the most significant length byte only for the first 6 and last 10 packets); truncate at every offset; drop/dup/swap of the first 6 and last 10 packets (thorough: every packet); 5 wrong-AAD, 5 wrong-terminator, garbage 4096/4097; thorough adds delete/insert a byte at every offset",
 	})
 	report(r, sink, "")
 	r.Finish(true)
